@@ -16,6 +16,7 @@
 -/
 import FwdVerif.Lemmas.C16
 import FwdVerif.Lemmas.C16Stack
+import FwdVerif.Lemmas.C16Src
 
 namespace FwdVerif
 namespace C16
@@ -433,6 +434,132 @@ theorem c16_connect_rename_is_apply (h : HMap) (n : Bytes) :
 
 example : connectHeadMap [.rename [120, 45, 102, 111, 111]] [([88, 45, 70, 111, 111], [[97]])] =
     [([120, 45, 102, 111, 111], [[97]])] := by decide
+
+/-! ## H. How a rule list arrives: command line, environment, config file
+
+  (`Model/C16Src.lean`: every occurrence of a flag and every `FORWARDER_*` variable is ONE record of
+  comma separated values as `encoding/csv` reads it; a config-file LIST is taken element by element.)
+
+  Byte strings used in the concrete examples:
+    "X: a,-B" = [88,58,32,97,44,45,66]   "X: a" = [88,58,32,97]   "-B" = [45,66]   "," = 44   "\"" = 34 -/
+
+/-- a config-file list of `n` strings yields exactly those `n` rule texts, in order: nothing inside
+    an element — comma, double quote, blank — ever splits it -/
+theorem c16_config_list_elements_are_rules (s : Source) (xs : List Bytes)
+    (hf : s.flags = []) (he : s.env = none ∨ s.env = some []) (hc : s.config = some (.list xs)) :
+    rulesOfSource s = .ok xs := by
+  unfold rulesOfSource
+  rcases he with he | he <;> simp [hf, he, hc, textsOfConfig]
+
+example : rulesOfSource { config := some (.list [[88, 58, 32, 97, 44, 45, 66]]) } =
+    .ok [[88, 58, 32, 97, 44, 45, 66]] := by decide
+
+/-- … and the header set after processing is the one the elements give as rules, applied in order;
+    there are as many rules as elements -/
+theorem c16_config_list_header_set (s : Source) (xs : List Bytes) {rs : List Rule}
+    (hf : s.flags = []) (he : s.env = none ∨ s.env = some []) (hc : s.config = some (.list xs))
+    (hp : xs.mapM parseRule = some rs) (h : HMap) :
+    headerSetOf s h = some (applyRules rs h) ∧ rs.length = xs.length := by
+  refine ⟨?_, mapM_parse_length hp⟩
+  simp [headerSetOf, rulesOf, c16_config_list_elements_are_rules s xs hf he hc, hp]
+
+example : headerSetOf { config := some (.list [[88, 58, 32, 97, 44, 45, 66]]) } [([66], [[118]])] =
+    some [([66], [[118]]), ([88], [[97, 44, 45, 66]])] := by decide
+
+/-- flag form: a list of rule texts (none holding CR or LF) written as one CSV record — fields that
+    hold a comma or a double quote in quotes with `"` doubled, any other field quoted or not — is read
+    back as exactly that list -/
+theorem c16_csv_record_roundtrip (force : Bytes → Bool) {texts : List Bytes} (hne : texts ≠ [])
+    (hl : ∀ t ∈ texts, (13 : UInt8) ∉ t ∧ (10 : UInt8) ∉ t) :
+    csvRecord (csvEncode force texts) = .ok texts :=
+  csvRecord_encode force hne hl
+
+-- `"X: a,-B",-B`  is read as the two texts  `X: a,-B`  and  `-B`
+example : csvEncode (fun _ => false) [[88, 58, 32, 97, 44, 45, 66], [45, 66]] =
+      [34, 88, 58, 32, 97, 44, 45, 66, 34, 44, 45, 66] ∧
+    csvRecord [34, 88, 58, 32, 97, 44, 45, 66, 34, 44, 45, 66] =
+      .ok [[88, 58, 32, 97, 44, 45, 66], [45, 66]] := by decide
+
+/-- a rule text without comma, double quote, CR and LF goes through a flag (or a variable) as it
+    stands and is one rule text -/
+theorem c16_plain_flag_value_is_one_rule {t : Bytes} (hne : t ≠ [])
+    (h : ∀ c ∈ t, c ≠ 44 ∧ c ≠ 34 ∧ c ≠ 13 ∧ c ≠ 10) : csvRecord t = .ok [t] := by
+  have hq : csvNeedsQuote t = false := by
+    cases t with
+    | nil => exact absurd rfl hne
+    | cons c t =>
+      simp only [csvNeedsQuote, List.isEmpty_cons, Bool.false_or, List.any_eq_false, Bool.or_eq_true,
+        beq_iff_eq, not_or]
+      exact fun d hd => ⟨(h d hd).1, (h d hd).2.1⟩
+  have := csvRecord_encode (fun _ => false) (fs := [t]) (by simp)
+    (fun x hx => by
+      have hx' : x = t := by simpa using hx
+      subst hx'
+      exact ⟨fun m => (h 13 m).2.2.1 rfl, fun m => (h 10 m).2.2.2 rfl⟩)
+  simpa [csvEncode, csvField, hq] using this
+
+example : csvRecord [88, 58, 32, 97] = .ok [[88, 58, 32, 97]] := by decide
+
+/-- the same list arrives whichever way it is written down: one flag holding the record, one flag
+    per rule, the variable, a config-file string holding the record, a config-file list -/
+theorem c16_sources_agree (force : Bytes → Bool) {texts : List Bytes} (hne : texts ≠ [])
+    (hl : ∀ t ∈ texts, (13 : UInt8) ∉ t ∧ (10 : UInt8) ∉ t) :
+    rulesOfSource { flags := [csvEncode force texts] } = .ok texts ∧
+    rulesOfSource { flags := texts.map (fun t => csvEncode force [t]) } = .ok texts ∧
+    rulesOfSource { env := some (csvEncode force texts) } = .ok texts ∧
+    rulesOfSource { config := some (.text (csvEncode force texts)) } = .ok texts ∧
+    rulesOfSource { config := some (.list texts) } = .ok texts := by
+  have hr := csvRecord_encode force hne hl
+  have hm : texts.map (fun t => csvEncode force [t]) ≠ [] := by
+    cases texts with
+    | nil => exact absurd rfl hne
+    | cons t ts => simp
+  refine ⟨?_, ?_, ?_, ?_, ?_⟩
+  · simp [rulesOfSource, setAll, hr]
+  · simp [rulesOfSource, hm, setAll_singletons force hl]
+  · simp [rulesOfSource, csvEncode_ne_nil force hne, hr]
+  · simp [rulesOfSource, textsOfConfig, hr]
+  · simp [rulesOfSource, textsOfConfig]
+
+example : rulesOfSource { env := some [34, 88, 58, 32, 97, 44, 45, 66, 34, 44, 45, 66] } =
+    rulesOfSource { config := some (.list [[88, 58, 32, 97, 44, 45, 66], [45, 66]]) } := by decide
+
+/-- occurrences of a flag are concatenated in command line order -/
+theorem c16_repeated_flags_concatenate {v : Bytes} {vs : List Bytes} {r rs : List Bytes}
+    (h1 : csvRecord v = .ok r) (h2 : setAll vs = .ok rs) : setAll (v :: vs) = .ok (r ++ rs) := by
+  simp [setAll, h1, h2]
+
+example : setAll [[88, 58, 32, 97], [45, 66]] = .ok [[88, 58, 32, 97], [45, 66]] := by decide
+
+/-- command line before environment before config file -/
+theorem c16_flags_shadow_env_and_config (s : Source) (h : s.flags ≠ []) :
+    rulesOfSource s = setAll s.flags := by
+  simp [rulesOfSource, h]
+
+theorem c16_env_shadows_config (s : Source) {e : Bytes} (hf : s.flags = []) (he : s.env = some e)
+    (hne : e ≠ []) : rulesOfSource s = csvRecord e := by
+  simp [rulesOfSource, hf, he, hne]
+
+example :
+    rulesOfSource
+      { flags := [[45, 66]], env := some [88, 58, 32, 97], config := some (.list [[88, 58, 32, 97, 44, 45, 66]]) } =
+    .ok [[45, 66]] := by decide
+
+/-- witness for the slip "join the config-file list with commas and hand it to `Set`": the element
+    `X: a,-B` comes back as the two rule texts `X: a` and `-B`, both of them rules, and a message that
+    carries `B: v` loses it — where the list as given adds `X: a,-B` and keeps `B`; an element with a
+    double quote or an empty list makes `Set` fail although the list as given is fine -/
+theorem c16_join_then_split_witness :
+    rulesOfSource { config := some (.list [[88, 58, 32, 97, 44, 45, 66]]) } =
+      .ok [[88, 58, 32, 97, 44, 45, 66]] ∧
+    joinedThenSplit [[88, 58, 32, 97, 44, 45, 66]] = .ok [[88, 58, 32, 97], [45, 66]] ∧
+    headerSetOf { config := some (.list [[88, 58, 32, 97, 44, 45, 66]]) } [([66], [[118]])] =
+      some [([66], [[118]]), ([88], [[97, 44, 45, 66]])] ∧
+    ([[88, 58, 32, 97], [45, 66]].mapM parseRule).map (fun rs => applyRules rs [([66], [[118]])]) =
+      some [([88], [[97]])] ∧
+    joinedThenSplit [[88, 58, 34]] = .error .bareQuote ∧ parseRule [88, 58, 34] = some (.add [88] [34]) ∧
+    joinedThenSplit [] = .error .eof ∧ rulesOf { config := some (.list []) } = some [] := by
+  decide
 
 end C16
 end FwdVerif
